@@ -2,9 +2,12 @@
    a scheduled task without a start of its own starts no earlier than end (start for on-start edges)
    of every predecessor plus the gap - own, inherited and 'precedes'-created edges are all in t_deps -
    and no earlier than the start inherited from a dated container; every predecessor is scheduled.
-   Backward (ALAP) mode is outside the model: it is checked on the implementation only (DESIGN.md). *)
-From Coq Require Import List Arith.
+   Backward (ALAP) mode: C04_alap - a task without an end of its own ends no later than the start of every
+   successor minus the gap and no later than the deadline of every enclosing container; every successor is
+   scheduled.  On-start edges in backward mode and mixed chains are not claimed (as in the property). *)
+From Coq Require Import List Arith ZArith.
 Require Import SP.Model.Sched SP.Proofs.SchedFinal.
+Require Import SP.Model.Alap SP.Proofs.AlapProofs.
 
 Theorem C04_asap : forall p t f e, leaf_dates (schedule p) t = Some (f, e) -> t_pin (task_of p t) = None ->
   t_lb (task_of p t) <= f /\
@@ -13,3 +16,26 @@ Theorem C04_asap : forall p t f e, leaf_dates (schedule p) t = Some (f, e) -> t_
                   (if d_onstart d then s' else e') + d_gap d <= f.
 Proof. exact deps_respected. Qed.
 Print Assumptions C04_asap.
+
+(* ---- backward (ALAP) mode: the project record is read backwards (Model/Alap.v: t_deps = successor edges,
+   t_pin = own end, t_lb = earliest deadline of the enclosing containers, n = p_upper slots) and the schedule
+   is the mirror image of the forward schedule of the mirrored project *)
+Theorem C04_alap : forall p t f e,
+  alap_leaf_dates p t = Some (f, e) -> t_pin (task_of p t) = None -> t < length (p_tasks p) ->
+  e <= t_lb (task_of p t) /\
+  forall d, In d (t_deps (task_of p t)) ->
+    exists s' e', alap_dates p (d_task d) = Some (s', e') /\ e + d_gap d <= (if d_onstart d then e' else s').
+Proof. exact alap_deps_respected. Qed.
+Print Assumptions C04_alap.
+
+(* non-vacuity: 8 slots, one resource working throughout; t0 (2 slots) must end one slot before t1 (1 slot)
+   starts; backward scheduling puts t1 in the last slot and t0 in slots 4 and 5 *)
+Example C04_alap_example :
+  let r := {| r_work := fun _ => true; r_limits := nil |} in
+  let t0 := {| t_leaf := true; t_kids := nil; t_leaves := nil; t_prio := 500%Z; t_need := 2; t_team := 0 :: nil;
+               t_deps := {| d_task := 1; d_onstart := false; d_gap := 1 |} :: nil; t_pin := None; t_lb := 8; t_limits := nil |} in
+  let t1 := {| t_leaf := true; t_kids := nil; t_leaves := nil; t_prio := 500%Z; t_need := 1; t_team := 0 :: nil;
+               t_deps := nil; t_pin := None; t_lb := 8; t_limits := nil |} in
+  let p := {| p_tasks := t0 :: t1 :: nil; p_res := r :: nil; p_limits := nil; p_upper := 8 |} in
+  alap_results p = Some (4, 6) :: Some (7, 8) :: nil.
+Proof. vm_compute. reflexivity. Qed.
